@@ -44,7 +44,7 @@ def check(tree, rep, tier='quick', seed=0):
     listing = [re.compile(p) for p in load_data('listing_lines.json')['patterns']]
     chain = load_data('withholding_chain.json')
     sym_exc = {e['line'] for e in load_data('symmetry_exceptions.json')}
-    n_defs = n_links = 0
+    n_defs = n_links = n_rows = 0
     for d in an.defs.values():
         n_defs += 1
         lk = f'{d.fr.name}.{d.name}'
@@ -83,6 +83,9 @@ def check(tree, rep, tier='quick', seed=0):
                 walk(c, visit)
             if p.outcome.kind == 'ret':
                 walk(p.outcome.value, visit)
+            for (kind, data, node, rel_) in p.events:
+                if kind == 'collapse':
+                    bad.append(data)
         # names with a computed part over a fixed block (dependent_{n}_ctc) are indices into the 1040's own rows, not copies of a form
         bad = [b for b in bad if 'dependent_{' not in b]
         rep.ob('R16.1', f'{d.key}', not bad, f'{d.key} is not invariant under renumbering the copies of a form: {bad[:2]}', d.where)
@@ -92,6 +95,44 @@ def check(tree, rep, tier='quick', seed=0):
         if fixed:
             ok = any(p.fullmatch(lk) for p in listing)
             rep.ob('R16.2', d.key, ok, f'{d.key} addresses a numbered copy by a fixed position ({fixed[:2]}) but is not a per-payer listing line: renumbering the copies changes its value', d.where)
+        # ---- R16.2b row k of a per-payer listing shows copy k and nothing else (so that renumbering the copies permutes the rows and
+        #      leaves every total over the rows unchanged)
+        if any(p.fullmatch(lk) for p in listing):
+            n_rows += 1
+            k = int(re.findall(r'\d+', d.name)[-1])
+            why = []
+            forms = set()
+            for p in d.paths:
+                if p.imprecise:
+                    if not any(e[0] == 'collapse' for e in p.events):
+                        rep.error(f'{d.key}: per-payer listing row could not be followed ({p.imprecise[0][0] if isinstance(p.imprecise[0], tuple) else p.imprecise[0]}); "row k shows copy k" is not decided')
+                    continue
+                if p.outcome.kind != 'ret':
+                    why.append(f'a path ends in {p.outcome!r}')
+                    continue
+                gs = [(c, pol) for (c, pol, _n, _r) in p.guards]
+                shown = None
+                for c, pol in gs:
+                    m = isinstance(c, E) and c.op == 'lt' and c.args[0] == k and not isinstance(c.args[0], bool) and isinstance(c.args[1], E) and c.args[1].op == 'i' \
+                        and re.fullmatch(r'1040\.number_(.+)', str(c.args[1].args[0]))
+                    if not m:
+                        why.append(f'the row depends on {c!r}, which is not "there is a copy number {k}"')
+                    else:
+                        forms.add(m.group(1))
+                        shown = pol
+                if shown is None:
+                    why.append(f'the row is not guarded by "there is a copy number {k}"')
+                elif shown is False:
+                    if p.outcome.value is not None:
+                        why.append(f'beyond the last copy the row is {p.outcome.value!r} instead of blank')
+                else:
+                    atoms = set()
+                    walk(p.outcome.value, lambda x: atoms.add(str(x.args[0])) if x.op in ('i', 'v') else None) if isinstance(p.outcome.value, E) else None
+                    other = sorted(a for a in atoms if not any(a.startswith(f'{fm}:{k}.') for fm in forms))
+                    if not atoms or other:
+                        why.append(f'the row shows {p.outcome.value!r}, which is not computed from copy {k} alone ({other[:2]})')
+            rep.ob('R16.2', d.key + '/row-shows-its-copy', not why,
+                   f'{d.key} is a per-payer listing row, but {why[0] if why else ""}: renumbering the copies then does more than reorder the rows (the totals over the rows change)', d.where)
         # ---- R16.5 taxpayer / spouse symmetry
         if d.fr.instance != 'spouse':
             other = an.defs.get((d.year, d.fr.name.replace(':you', ':spouse'), d.name)) if d.fr.instance == 'you' else None
@@ -173,6 +214,7 @@ def check(tree, rep, tier='quick', seed=0):
     rep.floor('amount lines chosen by a comparing yes/no line', n_el, 3)
     rep.floor('definitions checked for renumbering invariance', n_defs, 2200)
     rep.floor('withholding chain links', n_links, 30)
+    rep.floor('per-payer listing rows checked', n_rows, 100)
 
 
 def _coeff(lin, src):
